@@ -224,7 +224,29 @@ def judge_case(record):
     return (judge_batch(c) if "batch" in c else judge(c))["viol"]
 
 
+def k1_probe(rec):
+    ids = set()
+    for k in runner.known_for("C01"):
+        ids |= set(k.get("identifiers", []))
+    n = "choose_experiment_variant"
+    items = []
+    for g in (16, 17, 23, 32, 50, 64):
+        prog = M.program("exp", M.ret([(M.lit_str("g%d" % j), "1") for j in range(g)]), splitters=[n])
+        items.append({"text": M.render(prog), "inputs": M.enc_inputs({n: "unit-1"}), "multi": True})
+    v = judge_batch({"batch": items, "configs": [1, 3, 4]})
+    if v["viol"]:
+        if n in ids:
+            rec.known_finding("K1", "a splitter named choose_experiment_variant makes the key contain a memory address: results "
+                              "differ between processes (still failing)")
+            return True
+        rec.violation("k1-probe", {"batch": items, "configs": [1, 3, 4]}, v["viol"])
+        return False
+    return True
+
+
 def run(ctx, rec):
+    if ctx.shard == 0 and not k1_probe(rec):
+        return
     runner.hyp_run(ctx, rec, "in-process-histories", histories(), judge, ctx.n(120, 800))
     if rec.violations:
         return
